@@ -1,4 +1,5 @@
 import Unimock.Driver.Protocol
+import Unimock.Model.Interleave
 open Unimock.Driver
 
 /-- read all scenarios from stdin; each starts with `scenario <id>` and ends with `end` -/
@@ -21,9 +22,15 @@ def main (_args : List String) : IO Unit := do
       name := " ".intercalate rest
       cur := #[]
     | ["end"] =>
-      let st := runScenario (cur.toList ++ [["end"]]) {}
       stdout.putStrLn s!"scenario {name}"
-      for o in st.out do stdout.putStrLn o
+      if cur.any (fun t => t.head? == some "via") then
+        if !(cur.any (fun t => t.head? == some "par" || t.head? == some "stress")) then
+          for o in runChainScenario cur.toList do stdout.putStrLn o
+      else if cur.any (fun t => t.head? == some "par") then
+        for o in runParScenario cur.toList do stdout.putStrLn o
+      else
+        let st := runScenario (cur.toList ++ [["end"]]) {}
+        for o in st.out do stdout.putStrLn o
       stdout.putStrLn "end"
     | _ =>
       if (toks.head?.getD "").startsWith "#" then pure () else cur := cur.push toks
